@@ -69,7 +69,7 @@ def real_cases(ctx):
     return real.scenarios(max_procs=3, min_procs=1, max_jobs=5, token_pct=100, fail_pct=10, kill_pct=80, restart=False, durations=(0.1, 0.3, 0.6))
 
 
-PARTS.append(Part("real", prop_real, strategy=real_cases, quick=16, thorough=240, shrink_budget=5))
+PARTS.append(Part("real", prop_real, strategy=real_cases, quick=16, thorough=240, shrink_budget=5, collect=True))
 
 # --- a scheduler opens a token that k live jobs of a dead scheduler hold (real threads) ----------
 
